@@ -74,12 +74,15 @@ PLANS["C11"] = dict(stages=[dict(bin="world", world="policy", prop="C11", share=
 # accesses in nsq code count. Used where the property has a "does not crash /
 # stays correct under concurrency" clause.
 RACE_NOTE = "; a share of the budget runs the same world built with -race: a data race between two accesses in nsq code is a violation (class data-race)"
-for _p, _share in (("C02", 0.2), ("C08", 0.3), ("C09", 0.25), ("C15", 0.3), ("C16", 0.25), ("C18", 0.3)):
+for _p, _share in (("C02", 0.2), ("C08", 0.3), ("C09", 0.25), ("C12", 0.25), ("C15", 0.3), ("C16", 0.25), ("C18", 0.3)):
     _st = PLANS[_p]["stages"]
     _st[0]["share"] = 1.0 - _share
     _st.append(dict(bin="world_race", world=_st[0]["world"], prop=_st[0].get("prop", _p), share=_share))
     PLANS[_p]["rule"] += RACE_NOTE
     PLANS[_p]["assumptions"] = PLANS[_p]["assumptions"] + ["race stage: Go race detector semantics (happens-before over sync operations; simnet's mutex/cond stands in for the kernel's socket synchronisation)"]
+
+# C12's race stage only counts races that involve the id generator (other races belong to C02/C08/C09)
+PLANS["C12"]["race_match"] = r"guid\.go|GenerateID|GUID|guids"
 
 REAL_APP = ["nsqd (New/LoadMetadata/PersistMetadata/Main/Exit)", "go-nsq v1.1.0 consumer/producer (rewritten copy: net only)", "go-diskqueue v1.1.0 on tmpfs", "internal/clusterinfo, internal/http_api"]
 PLANS["C19"] = dict(stages=[dict(bin="nsq_to_file", world="tofile", prop="C19", share=1.0)], quick_s=30, thorough_s=600, level="fault_enumeration",
